@@ -93,12 +93,36 @@ fn redundancy(rep: &mut Report, rng: &mut Rng, k: u64) {
     }
 }
 
+/// One long-lived compressor emitting thousands of flushed dynamic blocks in a single stream (a
+/// short message repeated, Full - sometimes Sync - flush after every copy): per-block statistics
+/// that are wrongly carried from block to block (16-bit counters!) only go wrong after many
+/// blocks.
+fn many_blocks(rng: &mut Rng, quick: bool) -> Hist {
+    let cfg = Config { level: 1 + rng.below(9) as u8, strategy: *rng.pick(&[CompressionStrategy::Default, CompressionStrategy::Default, CompressionStrategy::Filtered, CompressionStrategy::HuffmanOnly, CompressionStrategy::RLE]), zlib: rng.bool(), wbits: 15 };
+    let class = *rng.pick(&[6usize, 6, 6, 11, 5, 13]);
+    let mlen = 300 + rng.below(1300);
+    // class 6 here: a skewed distribution over all 256 byte values (product of two uniform
+    // draws), which gives irregular code lengths and a long code-length sequence per block
+    let msg: Vec<u8> = if class == 6 { (0..mlen).map(|_| ((rng.below(256) * rng.below(256)) >> 8) as u8).collect() } else { data::gen(rng, class, mlen) };
+    let copies = if rng.chance(1, 5) { 8200 + rng.below(200) } else if quick { 1100 + rng.below(3200) } else { 1100 + rng.below(7400) };
+    let mut plain = Vec::with_capacity(mlen * copies);
+    let flush = if rng.chance(1, 5) { TDEFLFlush::Sync } else { TDEFLFlush::Full };
+    let mut steps = Vec::with_capacity(copies + 1);
+    for _ in 0..copies {
+        plain.extend_from_slice(&msg);
+        steps.push(CStep { chunk: mlen, out_len: 200_000, flush });
+    }
+    let api = if rng.chance(1, 4) { Api::Deflate } else { Api::Compress };
+    Hist { cfg, api, plain, class, steps, tail_out: 4096, family: "thousands_of_flushed_blocks" }
+}
+
 pub fn run(ctx: &Ctx, rep: &mut Report) {
     let rounds = ctx.n(30, 400);
     let n_cfg = 880 * rounds;
     let n_red = ctx.n(900, 48_000);
     let n_fill = ctx.n(64, 3000);
-    for k in ctx.cases(n_cfg + n_red + n_fill) {
+    let n_many = ctx.n(32, 600);
+    for k in ctx.cases(n_cfg + n_red + n_fill + n_many) {
         rep.cur_case = k;
         crate::ctx::begin_case(k);
         let mut rng = ctx.rng("case", k);
@@ -127,11 +151,21 @@ pub fn run(ctx: &Ctx, rep: &mut Report) {
             }
         } else if k < n_cfg + n_red {
             redundancy(rep, &mut rng, k - n_cfg);
-        } else {
+        } else if k < n_cfg + n_red + n_fill {
             let h = gen_lzfill(&mut rng);
             if let Some((run, o)) = run_one("C10", rep, &h) {
                 let det = |note: &str| history_detail(&h.cfg, h.api, &h.plain, &h.steps, &run, note);
                 mode_rules(rep, &h, &o, &det);
+            }
+        } else {
+            let h = many_blocks(&mut rng, ctx.quick());
+            if let Some((run, o)) = run_one("C10", rep, &h) {
+                let det = |note: &str| history_detail(&h.cfg, h.api, &h.plain, &h.steps, &run, note);
+                mode_rules(rep, &h, &o, &det);
+                rep.max("max_blocks_in_one_stream", o.blocks.len() as f64, &h.cfg.describe());
+                let mut hs = crate::rng::Hasher::new();
+                hs.bytes(&run.out).u64(h.cfg.index());
+                rep.nontrivial(hs.finish());
             }
         }
     }
